@@ -1591,7 +1591,8 @@ def finish_pairs(c, S, arr, tot, exc, run_more, factors=None, to_case=None):
         rng = SplitMix(c.seed * 104729 + rounds)
         extra = []
         for pr in missing[:120]:
-            for attempt in range(3):
+            got = 0
+            for attempt in range(4):
                 cand = {pr[0]: pr[1], pr[2]: pr[3]}
                 ok = True
                 for f in factors:
@@ -1606,8 +1607,12 @@ def finish_pairs(c, S, arr, tot, exc, run_more, factors=None, to_case=None):
                         ok = False
                         break
                 if ok:
-                    extra.append(OrderedDict((f, cand[f]) for f in factors))
-                    break
+                    oc = OrderedDict((f, cand[f]) for f in factors)
+                    if oc not in extra:            # two different completions per uncovered pair: one may be rejected again
+                        extra.append(oc)
+                        got += 1
+                    if got >= 2:
+                        break
         if not extra:
             break
         base = len(arr)
